@@ -182,7 +182,7 @@ pub fn run(cfg: &Cfg, rep: &mut Report) {
     let d = crate::gram::db();
     let n_ops = d.insts.len() as u64;
     // ---- well-formed: every opcode at least once
-    run_stage(cfg, rep, "wellformed", cfg.n(n_ops * 4, n_ops * 20), |idx, rng, r| {
+    run_stage(cfg, rep, "wellformed", cfg.n(n_ops * 4, n_ops * 400), |idx, rng, r| {
         let op = (idx % n_ops) as usize;
         let b = gen_base(rng, vec![op], true);
         let bytes = words_to_bytes(&b.words);
@@ -205,7 +205,7 @@ pub fn run(cfg: &Cfg, rep: &mut Report) {
         }
     });
     // ---- mutants
-    let n = cfg.n(250_000, 1_500_000);
+    let n = cfg.n(250_000, 40_000_000);
     run_stage(cfg, rep, "mutants", n, |idx, rng, r| {
         let must = if rng.chance(1, 2) { vec![rng.below(d.insts.len())] } else { vec![] };
         let small = rng.chance(2, 3);
@@ -222,7 +222,7 @@ pub fn run(cfg: &Cfg, rep: &mut Report) {
         }
     });
     // ---- exhaustive truncation of small modules at every byte offset
-    run_stage(cfg, rep, "truncation", cfg.n(800, 6_000), |idx, rng, r| {
+    run_stage(cfg, rep, "truncation", cfg.n(800, 60_000), |idx, rng, r| {
         let must_op = rng.below(d.insts.len());
         let b = gen_base(rng, vec![must_op], true);
         let bytes = words_to_bytes(&b.words);
